@@ -1044,7 +1044,12 @@ class Engine:
         self.opq_ctr = getattr(self, "opq_ctr", 0) + 1
         tag = "%s#%d" % (name.replace(".", "_"), self.opq_ctr)
         ret = spec.get("ret", "obj")
-        if ret == "bool":
+        if spec.get("unparse_names") and len(args) == 1 and isinstance(args[0], Ref) and isinstance(s3.heap[args[0].oid], HObj) \
+                and s3.heap[args[0].oid].cls == "ast.Name" and "id" in s3.heap[args[0].oid].attrs:
+            # the one thing assumed about the opaque renderer: ast.unparse of a Name node is its identifier (cross-checked against CPython by the runtime companion)
+            r = s3.heap[args[0].oid].attrs["id"]
+            self.assumed.add("opaque renderer %s: the text of a Name node is its identifier (everything else unconstrained)" % name)
+        elif ret == "bool":
             r = Sym(fresh("r_" + tag, B), "bool")
         elif ret == "str":
             r = Sym(fresh("r_" + tag, S), "str")
